@@ -178,23 +178,20 @@ ApplyUnits(img, pending, S, i) ==
        ELSE IF w.kind = "j" THEN ApplyUnits([img EXCEPT !.j[w.slot] = w.v], pending, S, i + 1)
        ELSE ApplyUnits([img EXCEPT !.m[w.copy] = w.v], pending, S, i + 1)
 
-\* everything lands (a completed fsync): later writes override earlier ones
-RECURSIVE LastCover(_, _, _)
-LastCover(pending, b, i) ==
-  IF i = 0 THEN 0
-  ELSE IF pending[i].kind = "d" /\ b >= pending[i].at /\ b < pending[i].at + Len(pending[i].c) THEN i
-  ELSE LastCover(pending, b, i - 1)
-RECURSIVE LastOf(_, _, _, _)
-LastOf(pending, kind, which, i) ==
-  IF i = 0 THEN 0
-  ELSE IF pending[i].kind = kind /\ (IF kind = "j" THEN pending[i].slot ELSE pending[i].copy) = which THEN i
-  ELSE LastOf(pending, kind, which, i - 1)
-ApplyAll(img, pending) ==
-  IF pending = <<>> THEN img ELSE
-  [blk |-> [b \in Blocks |-> LET i == LastCover(pending, b, Len(pending)) IN
-                              IF i = 0 THEN img.blk[b] ELSE pending[i].c[b - pending[i].at + 1]],
-   j |-> [s \in 0 .. 1 |-> LET i == LastOf(pending, "j", s, Len(pending)) IN IF i = 0 THEN img.j[s] ELSE pending[i].v],
-   m |-> [c \in 0 .. 1 |-> LET i == LastOf(pending, "m", c, Len(pending)) IN IF i = 0 THEN img.m[c] ELSE pending[i].v]]
+\* everything lands (a completed fsync): the writes are applied in issue order
+RECURSIVE PutBlocks(_, _, _, _)
+PutBlocks(blk, at, c, i) ==
+  IF i > Len(c) THEN blk
+  ELSE PutBlocks(IF (at + i - 1) \in Blocks THEN [blk EXCEPT ![at + i - 1] = c[i]] ELSE blk, at, c, i + 1)
+RECURSIVE FoldAll(_, _, _)
+FoldAll(img, pending, i) ==
+  IF i > Len(pending) THEN img
+  ELSE LET w == pending[i] IN
+       FoldAll(IF w.kind = "d" THEN [img EXCEPT !.blk = PutBlocks(@, w.at, w.c, 1)]
+               ELSE IF w.kind = "j" THEN [img EXCEPT !.j[w.slot] = w.v]
+               ELSE IF w.kind = "m" THEN [img EXCEPT !.m[w.copy] = w.v]
+               ELSE img, pending, i + 1)
+ApplyAll(img, pending) == FoldAll(img, pending, 1)
 CrashImagesOf(img, pending, subsets) == {ApplyUnits(img, pending, S, 1) : S \in subsets}
 
 (* ------------------------- torn units (intra-block cuts) ------------------------- *)
